@@ -74,10 +74,12 @@ def _budgeted(eng):
         n = eng.stats["feas_unknown"]
         r = orig(cond)
         if eng.stats["feas_unknown"] != n:
+            eng._c05_cuts += 1
             raise core.PathCut("feasibility of a branch undecided within the solver budget")
         return r
     eng.decide = decide
     eng._c05_budgeted = True
+    eng._c05_cuts = 0
 
 
 class CodegenHarness(Harness):
@@ -145,6 +147,8 @@ class CodegenHarness(Harness):
         sym = core.ENG is not None
         if sym:
             _budgeted(core.ENG)
+            if core.ENG._c05_cuts >= 2:
+                raise core.PathCut("solver budget of this job used up (two undecided branches)")
         o = rv32.Z3OPS if sym else rv32.PYOPS
         out = _tv.term_out if sym else (lambda t: t)
         f = b.func
@@ -238,6 +242,7 @@ class CodegenHarness(Harness):
                  for j in range(_c05.CALLER_FRAME)]
         wildc = (_tv.term_out(z3.Or(*wild)) if sym else True) if wild else False
         if sym and core.ENG.current_model() is None:
+            core.ENG._c05_cuts += 1
             raise core.PathCut("feasibility of the path undecided within the solver budget")
         return dict(status="ok", ref=ref, premise=premise, mach=dict(ret=ret, mem=mmem, trace=trace),
                     saved=saved, frame=frame, steps=steps, wild=wildc)
